@@ -82,7 +82,7 @@ def check(run, replay_path=None):
     # are the states of the MdibVersion the report is labelled with
     periodic = [('P_periodic', 'W_ctx'), ('P_periodic', 'W_metric_m1'), ('P_periodic', 'W_alert_al'),
                 ('P_periodic', 'W_comp_vmd'), ('P_periodic', 'W_op_op')]
-    run_scenarios(run, periodic, run.pick(80, 1500),
+    run_scenarios(run, periodic, run.pick(20, 1500),
                   {'label_is_a_version_that_existed', 'snapshot_content', 'each_at_most_once', 'request_answered'},
                   prefix='c04p')
     slow_subscriber(run)
